@@ -63,6 +63,8 @@ FLAVOURS = {
                  cflags=["-O1", "-g", "-fno-omit-frame-pointer", "-fsanitize=fuzzer-no-link,address", UBSAN, UBSAN_NR],
                  ldflags=["-fsanitize=fuzzer,address", UBSAN]),
 }
+if os.environ.get("VERIF_COVERAGE"):  # scripts/coverage.py: gcov-instrumented "rel" flavour in a scratch build directory
+    FLAVOURS["rel"] = dict(cc="gcc", cxx="g++", cflags=["-O1", "-g", "--coverage", "-fprofile-update=atomic"], ldflags=["-lgcov"])
 EXTRA_DEFS = os.environ.get("VERIF_LIB_DEFS", "").split()  # informational flavours (e.g. -DSPQLIOS_Q120_USE_31_BIT_PRIMES)
 
 
